@@ -643,6 +643,40 @@ def gen_packets(ctx):
     return rc, log, packets, len(specs)
 
 
+# Verdicts that rest on "nothing moved any more" (quiescence, a process that died, an observation cut short) rather than on
+# the bytes observed.  The rig decides them from goroutine states, not from the clock, but as a safety net they are
+# reported only if the case, run ALONE in a fresh driver process, gives the same verdict three times out of three;
+# otherwise the evidence notes say "not reproduced in isolation (load)".
+LOAD_SENSITIVE = {'wedged', 'leak', 'no-redirect', 'not-closed-on-dial-failure', 'not-closed-on-write-failure', 'server-crash'}
+ISOLATION_TRIES = 3
+
+
+def load_sensitive(sig, c, o):
+    if sig in LOAD_SENSITIVE or o.get('hard') == '1' or o.get('uns') == '1':
+        return True
+    s, reply = unhx(c['meta']['stream']), unhx(c['reply'])
+    if sig == 'target-mismatch' and s.startswith(unhx(o.get('tgt'))) and s.startswith(unhx(o.get('ftgt'))):
+        return True      # fewer bytes than expected, all of them right: possibly an observation taken too early
+    if sig == 'peer-mismatch' and reply.startswith(unhx(o.get('peer'))) and reply.startswith(unhx(o.get('fpeer'))):
+        return True
+    return False
+
+
+def reproduces_alone(ctx, states, c, what, judge, tag):
+    """judge(o, tb, model_line) -> the verdict for one observation.  True iff ISOLATION_TRIES fresh single-case runs
+    all give `what`."""
+    for i in range(ISOLATION_TRIES):
+        rc1, log1, parsed1, mrc1, merr1, model1, _ = run_cases(ctx, {c['st']: states[c['st']]}, [c], '%s%d' % (tag, i))
+        o1, tb1 = parsed1.get(c['id'], (None, None))
+        if o1 is None:
+            got = 'server-crash' if rc1 != 0 and ('panic:' in log1 or 'fatal error' in log1) else None
+        else:
+            got = judge(o1, tb1, model1.get(c['id']))
+        if got != what:
+            return False
+    return True
+
+
 def correspondence(ctx, verdict, pr):
     res = dict(broken=[])
     rc, log, packets, nspecs = gen_packets(ctx)
@@ -667,8 +701,20 @@ def correspondence(ctx, verdict, pr):
         cases = pre + cases
     rc, log, parsed, mrc, merr, model, dt = run_cases(ctx, states, cases, 'cases')
     if rc != 0:
-        res['broken'].append(('Go driver TestVerifC09 failed to build or run', log[-3000:]))
-        crash_attribution(ctx, verdict, states, cases, parsed)
+        attributed = crash_attribution(ctx, verdict, states, cases, parsed)
+        rest = [c for c in cases if parsed.get(c['id'], (None, None))[0] is None]
+        if not attributed and rest and len(rest) < len(cases):
+            # the process ended early but no case kills it when run alone: run what is missing in a fresh process
+            rc2, log2, parsed2, mrc2, merr2, model2, dt2 = run_cases(ctx, states, rest, 'rest')
+            parsed.update({k: v for k, v in parsed2.items() if v[0] is not None})
+            model.update(model2)
+            if rc2 == 0:
+                ctx.notes.append('driver process ended early after %d of %d cases, not reproduced in isolation (load): the remaining cases were run in a fresh process' % (len(cases) - len(rest), len(cases)))
+                rc, mrc = 0, max(mrc, mrc2)
+            else:
+                log = log2
+        if rc != 0:
+            res['broken'].append(('Go driver TestVerifC09 failed to build or run', log[-3000:]))
     if mrc != 0:
         res['broken'].append(('extracted model c09 failed', str(merr)[-2000:]))
     mism = []
@@ -697,7 +743,7 @@ def correspondence(ctx, verdict, pr):
             if d:
                 mism.append((len(c['meta']['stream']), c, o, ml, d))
     # report oracle failures: smallest per signature
-    seen = {}
+    seen, tried, nload = {}, {}, 0
     for n, c, o, (sig, msg) in sorted(fails, key=lambda f: (f[0], len(f[1]['chunks']))):
         key = sig
         if sig == 'target-mismatch':       # one per consumed-prefix class (1 / 5 / buffer size / whole packet)
@@ -705,11 +751,44 @@ def correspondence(ctx, verdict, pr):
             key = (sig, n_consumed if n_consumed in ('1', '5', str(FPS)) else 'packet')
         if key in seen or len(seen) >= 6:
             continue
+        if load_sensitive(sig, c, o):
+            tried[key] = tried.get(key, 0) + 1
+            if tried[key] > 4:
+                continue
+            if not reproduces_alone(ctx, states, c, sig, lambda o1, tb1, ml1: (oracle(c, o1) or (None,))[0], 'iso'):
+                nload += 1
+                ctx.notes.append('oracle verdict [%s] on case %s (%s, %d-byte stream, segmentation %s, script %s) not reproduced in isolation (load): %d runs alone did not all give it' % (
+                    sig, c['id'], c['meta']['cat'], n // 2, c['meta']['seg'], c['meta']['script'], ISOLATION_TRIES))
+                continue
         seen[key] = 1
         verdict.oracle_failure(sig, 'C09 oracle [%s]: %s (case %s: %s, %d-byte stream, segmentation %s, target script %s, end=%s)' % (
             sig, msg, c['id'], c['meta']['cat'], n // 2, c['meta']['seg'], c['meta']['script'], c['end']),
             dict(case=c, state=states[c['st']], implementation=o, model=model.get(c['id']),
                  how='python3 tools/check.py C09 --replay <this file>'))
+    if mism:
+        # a difference may be an observation taken on a starved machine: the differing cases are run again as a small
+        # batch in a fresh process, and the smallest of those that still differ alone, three times
+        n0 = len(mism)
+        sub = [m[1] for m in mism]
+        rcb, logb, parsedb, mrcb, merrb, modelb, _ = run_cases(ctx, states, sub, 'mism')
+        still = []
+        for c in sub:
+            ob, tbb = parsedb.get(c['id'], (None, None))
+            d = compare(c, ob, tbb, modelb.get(c['id'])) if ob is not None else 'no output'
+            if d:
+                still.append((len(c['meta']['stream']), c, ob if ob is not None else {}, modelb.get(c['id']) or '', d))
+        confirmed = []
+        for m in sorted(still, key=lambda m: (m[0], len(m[1]['chunks'])))[:5]:
+            cc = m[1]
+            if reproduces_alone(ctx, states, cc, True, lambda o1, tb1, ml1: bool(compare(cc, o1, tb1, ml1)), 'isom'):
+                confirmed.append(m)
+                break
+        if not confirmed:
+            ctx.notes.append('%d model/implementation differences of the main run not reproduced in isolation (load): %d still differed in a fresh batch, none three times out of three alone' % (n0, len(still)))
+            nload += n0
+            mism = []
+        else:
+            mism = confirmed + [m for m in still if m is not confirmed[0]]
     if mism:
         n, c, o, ml, d = min(mism, key=lambda m: (m[0], len(m[1]['chunks'])))
         res['broken'].append(('model FirstPacket.v/Dispatch.v vs dispatchConnection: %d of %d cases differ' % (len(mism), len(cases)),
@@ -723,7 +802,7 @@ def correspondence(ctx, verdict, pr):
         samples=[dict(id=c['id'], cat=c['meta']['cat'], seg=c['meta']['seg'], script=c['meta']['script'], end=c['end'],
                       stream=c['meta']['stream'][:120]) for c in (cases[ncorpus], cases[len(cases) // 2], cases[-1])],
         traces_validated_against_impl=sum(1 for v in parsed.values() if v[0] is not None),
-        mismatches=len(mism), oracle_failures=len(fails), relaxed_half_close_or_early_close=nrelaxed,
+        mismatches=len(mism), oracle_failures=len(fails), not_reproduced_in_isolation=nload, relaxed_half_close_or_early_close=nrelaxed,
         input_distribution=dict(category_script_ending=vlib.summarize_dist(cats), model_branch=vlib.summarize_dist(branches)),
         corpus_cases=ncorpus, go_seconds=round(dt, 1), exhaustive=False)
     ctx.notes.append('O2 (half-close / early-closing target): %d scenarios compared in relaxed (prefix) form, not alarmed' % nrelaxed)
@@ -741,11 +820,17 @@ def crash_attribution(ctx, verdict, states, cases, parsed):
     k = cases.index(missing[0])
     c = None
     for cand in [cases[k]] + cases[max(0, k - 3):k][::-1]:
-        rc1, log1, parsed1, _, _, _, _ = run_cases(ctx, {cand['st']: states[cand['st']]}, [cand], 'crash')
-        if rc1 != 0 and ('panic:' in log1 or 'fatal error' in log1):
+        died = 0
+        for i in range(ISOLATION_TRIES):
+            rc1, log1, parsed1, _, _, _, _ = run_cases(ctx, {cand['st']: states[cand['st']]}, [cand], 'crash')
+            if not (rc1 != 0 and ('panic:' in log1 or 'fatal error' in log1)):
+                break
+            died += 1
+        if died == ISOLATION_TRIES:
             c = cand
             break
     if c is None:
+        ctx.notes.append('driver process died near case %s, not reproduced in isolation (load): none of the candidates kills it %d times out of %d alone' % (cases[k]['id'], ISOLATION_TRIES, ISOLATION_TRIES))
         return False
     tail = [ln for ln in log1.splitlines() if ln.startswith(('panic:', 'goroutine ', '\t/repo', 'github.com/cbeuw/Cloak')) or '[signal' in ln][:14]
     verdict.oracle_failure('server-crash', 'C09 oracle [server-crash]: the server process died while handling this connection (panic outside every recover): %s '
